@@ -556,9 +556,13 @@ fn fam_adversarial(o: &mut Out, quick: bool, _rng: &mut Rng) {
 /// three halvings (C04: the retry with the halved step ends; C11: singular passes count against the budget)
 fn singular_cases() -> Vec<Case> {
     let mut v = Vec::new();
-    for (m, coef) in [("RADAU", 3.637_834_252_744_496_f64), ("BDF", 1.185_f64)] {
-        for (x0, xend, h0) in [(0.0, 1.0, 0.5), (0.0, 1.0, 0.25), (1.0, 0.0, 0.5)] {
-            let lam = coef / h0 * if xend > x0 { 1.0 } else { -1.0 };
+    // Radau factors u1/h - J (u1/h exact for h a power of two); BDF factors I - (h/alpha) J (h/alpha exact for h = alpha/2^k)
+    let alpha1 = (1.0 - (-0.1850)) * 1.0_f64;
+    for (m, x0, xend, h0, lam0) in [("RADAU", 0.0, 1.0, 0.5, 3.637_834_252_744_496_f64 / 0.5), ("RADAU", 0.0, 1.0, 0.25, 3.637_834_252_744_496 / 0.25),
+                                    ("RADAU", 1.0, 0.0, 0.5, 3.637_834_252_744_496 / 0.5),
+                                    ("BDF", 0.0, 1.0, alpha1 / 2.0, 2.0), ("BDF", 0.0, 1.0, alpha1 / 4.0, 4.0), ("BDF", 1.0, 0.0, alpha1 / 2.0, 2.0)] {
+        {
+            let lam = lam0 * if xend > x0 { 1.0 } else { -1.0 };
             let mut c = base(m, Problem::new("grow4", lam), x0, xend);
             c.rtol = vec![1e-4];
             c.atol = vec![1e-8];
@@ -726,6 +730,7 @@ fn fam_lowlevel(o: &mut Out, quick: bool, rng: &mut Rng) {
                     c.rtol = vec![1e-4];
                     c.atol = vec![1e-7];
                     c.max_step = Some((xend - x0).abs() / 10.005);
+                    c.first_step = c.max_step;          // every step is max_step: ten of them leave 0.5% of one
                     c.probe_restart = true;
                     c.tags = vec!["restart_probe+max_step_remainder".into()];
                     o.run(c);
@@ -1646,6 +1651,31 @@ fn fam_teval_landing(o: &mut Out) {
 }
 
 /// C05: the degenerate interval with the requested time repeated
+/// C06: requested times that miss the span by a few 1e-10 at an offset of 1000 or 1e5 (a grid accumulated by repeated
+/// addition): whatever is reported is covered by sol
+fn fam_teval_offset(o: &mut Out) {
+    for m in METHODS {
+        for (x0, len) in [(1000.0, 1.0), (1.0e5, 1.0), (-1000.0, -1.0)] {
+            let xend: f64 = x0 + len;
+            let s = len.signum();
+            let mut c = base(m, Problem::new("sho", 0.0), x0, xend);
+            c.rtol = vec![1e-8];
+            c.atol = vec![1e-10];
+            c.dense = true;
+            if m == "RK4" { c.first_step = Some(len.abs() / 40.0); }
+            c.t_eval = Some(vec![x0 - s * 4e-10, x0 + 0.25 * len, x0 + 0.5 * len, xend + s * 4e-10]);
+            c.tags = vec!["offset+t_eval_outside_by_4e-10".into()];
+            o.run(c.clone());
+            // ten additions of a tenth
+            let mut te = vec![x0];
+            for _ in 0..10 { let l = *te.last().unwrap(); te.push(l + 0.1 * len); }
+            c.t_eval = Some(te);
+            c.tags = vec!["offset+t_eval_accumulated".into()];
+            o.run(c);
+        }
+    }
+}
+
 fn fam_teval_zero(o: &mut Out) {
     for m in METHODS {
         for x0 in [2.0, -50.0] {
@@ -1817,7 +1847,7 @@ fn main() {
             "terminal" => { fam_terminal(&mut o, quick, &mut rng); fam_terminal_last(&mut o, quick); fam_terminal_sweep(&mut o, quick); fam_terminal_budget(&mut o); }
             "symmetry" => fam_symmetry(&mut o, quick, &mut rng),
             "storage" => { fam_storage(&mut o, quick, &mut rng); fam_storage_mass(&mut o, quick); }
-            "teval" => { fam_teval(&mut o, quick, &mut rng); fam_teval_zero(&mut o); fam_teval_landing(&mut o); }
+            "teval" => { fam_teval(&mut o, quick, &mut rng); fam_teval_zero(&mut o); fam_teval_landing(&mut o); fam_teval_offset(&mut o); }
             "events" => { fam_events(&mut o, quick, &mut rng); fam_events_small(&mut o); fam_events_codes(&mut o); fam_events_tiny(&mut o); fam_events_zero(&mut o); fam_events_tinysteps(&mut o); }
             _ => { eprintln!("unknown family {}", fam); std::process::exit(2); }
         }
